@@ -19,6 +19,7 @@ import Kust.Kio
 import Kust.Fix
 import Kust.Edit
 import Kust.Kustfile
+import Kust.Loc
 import Kust.Gen.Lists
 import Kust.Gen.FieldSpecs
 import Kust.Gen.Lists
@@ -436,6 +437,47 @@ def runEdit (op : String) (a : Json) : Except String Json := do
     return Json.mkObj [("ok", Json.str (Kustfile.marshal mf Gen.fieldMarshallingOrder p))]
   | _ => throw s!"unknown edit op {op}"
 
+/-! ### localize -/
+def jP (j : Json) : List String := jStrs j
+def runLoc (op : String) (a : Json) : Except String Json := do
+  match op with
+  | "run" =>
+    let ents : List (List String × Loc.Ent) := (jArr (a.getObjValD "fs")).map fun e =>
+      match jArr e with
+      | [p, _, c] => (jP p, Loc.Ent.file (c.getStr?.toOption.getD ""))
+      | [p, _] => (jP p, Loc.Ent.dir)
+      | _ => ([], Loc.Ent.dir)
+    let fs0 : Loc.FS := fun x => (ents.find? (·.1 = x)).map (·.2)
+    let kusts : List (List String × String × List Loc.Ref) := (jArr (a.getObjValD "kust")).map fun k =>
+      (jP (k.getObjValD "root"), jS k "name", (jArr (k.getObjValD "refs")).map fun r =>
+        match jStrs r with
+        | ["file", raw] => Loc.Ref.file raw
+        | ["root", raw] => Loc.Ref.root raw
+        | [_, raw] => Loc.Ref.res raw
+        | _ => Loc.Ref.file "")
+    let resC := jStrs (a.getObjValD "resContents")
+    let badL := (jArr (a.getObjValD "bad")).map jP
+    let kf : Loc.P → Option (String × List Loc.Ref) := fun r => (kusts.find? (·.1 = r)).map (·.2)
+    let rf : String → Bool := fun c => resC.contains c
+    let bf : Loc.P → Bool := fun p => badL.contains p
+    let E : Loc.Env := Loc.Env.mk (jP (a.getObjValD "scope")) (jP (a.getObjValD "newDir")) kf rf bf "<localized kustomization>"
+    let F := match (a.getObjValD "fail").getNat? with | .ok n => n | _ => 1000000
+    let (s, ok) := Loc.run E F 64 fs0 (jP (a.getObjValD "target"))
+    let mutJ : Loc.Mut → Json
+      | .mkdir p => strsJ ("Mkdir" :: p)
+      | .mkdirAll p => strsJ ("MkdirAll" :: p)
+      | .write p _ => strsJ ("WriteFile" :: p)
+      | .removeAll p => strsJ ("RemoveAll" :: p)
+    -- the final file system on every path that was there or was addressed
+    let cand := (ents.map (·.1)) ++ (s.trace.flatMap fun m => (List.range (m.path.length + 1)).map fun n => m.path.take n)
+    let cand := (cand.eraseDups.map fun p => ("/" ++ "/".intercalate p, p)).mergeSort (fun a b => a.1 ≤ b.1) |>.map (·.2)
+    let final := cand.filterMap fun p => match s.fs p with
+      | some .dir => some (Json.arr #[strsJ p, Json.str "dir"])
+      | some (.file c) => some (Json.arr #[strsJ p, Json.str c])
+      | none => none
+    return Json.mkObj [("ok", Json.mkObj [("success", ok), ("trace", Json.arr (s.trace.map mutJ).toArray), ("fs", Json.arr final.toArray)])]
+  | _ => throw s!"unknown loc op {op}"
+
 def dispatch (comp : String) (args : Json) : Except String Json :=
   match comp.splitOn "." with
   | ["fns", op] => runFns op args
@@ -451,6 +493,7 @@ def dispatch (comp : String) (args : Json) : Except String Json :=
   | ["kio", op] => runKio op args
   | ["fix", op] => runFix op args
   | ["edit", op] => runEdit op args
+  | ["loc", op] => runLoc op args
   | _ => throw s!"unknown component {comp}"
 
 partial def loop (hin hout : IO.FS.Stream) : IO Unit := do
